@@ -37,6 +37,8 @@ mod filter;
 pub mod query;
 mod rule;
 mod token;
+#[cfg(olson_sean_k_wax_verif)]
+pub mod verif;
 pub mod walk;
 
 /// Re-exports of commonly used items.
